@@ -20,7 +20,7 @@ import (
 func init() {
 	register(&Prop{
 		ID: "C20", Level: "exploration",
-		Rule: "one case = a router with LoggerWithHandler(capturing handler) over all handler kinds, a drawn router-wide client-IP resolver (none, succeeding, failing - returning nil or a rejected candidate address next to its error) and routes with a drawn per-route resolver (inherit, other succeeding, failing, nil), plus a twin router without the logger; 8-20 requests per run, each with a scripted handler behaviour from {explicit status at the class boundaries 200/299/300/399/400/499/500/599 and every code 301-308 and 310, each with or without a Location header set, 201 with a Location header, informational only, implicit 200 by a body write, no write at all, redirect with Location, 3xx without Location, write on a failing connection, panic with a drawn value} and a drawn handler kind (route, no-route, no-method, built-in redirect, options). The log handler has a drawn minimum level (DEBUG..ERROR). Oracle: exactly one record per returning handler whose level reaches that minimum (none below it), emitted after the handler returned; status attribute = the status the recorder reports (first final status forwarded, 200 if none); method, host, path of the request; message = resolved client IP / remote address when no resolver is configured / 'unknown' when resolution fails, using the route's resolver in route handlers and the router-wide one elsewhere; level INFO/DEBUG/WARN/ERROR per status class, location attribute exactly for 3xx with a Location header; the bytes and headers on the simulated connection equal those of the twin router; a panic passes through as the identical value and emits no record. latency is ignored. Then 2-3 tasks send overlapping requests through the same wrapped handlers under the seeded scheduler (yields inside handlers and inside the log handler's Enabled, i.e. before slog copies the attributes): the records must be exactly one per request with that request's data. Non-trivial: the run covered at least 3 status classes and 2 handler kinds; distinct = hash of (configuration, request scripts).",
+		Rule: "one case = a router with LoggerWithHandler(capturing handler) over all handler kinds, a drawn router-wide client-IP resolver (none, succeeding, failing - returning nil or a rejected candidate address next to its error) and routes with a drawn per-route resolver (inherit, other succeeding, failing, nil), plus a twin router without the logger; 8-20 requests per run, each with a scripted handler behaviour from {explicit status at the class boundaries 200/299/300/399/400/499/500/599 and every code 301-308 and 310, each with or without a Location header set, 201 with a Location header, informational only, implicit 200 by a body write, no write at all, redirect with Location, 3xx without Location, a handler that replaces the writer (SetWriter) and answers through the new one, write on a failing connection, panic with a drawn value} and a drawn handler kind (route, no-route, no-method, built-in redirect, options). The log handler has a drawn minimum level (DEBUG..ERROR). Oracle: exactly one record per returning handler whose level reaches that minimum (none below it), emitted after the handler returned; status attribute = the status the recorder reports (first final status forwarded, 200 if none); method, host, path of the request; message = resolved client IP / remote address when no resolver is configured / 'unknown' when resolution fails, using the route's resolver in route handlers and the router-wide one elsewhere; level INFO/DEBUG/WARN/ERROR per status class, location attribute exactly for 3xx with a Location header; the bytes and headers on the simulated connection equal those of the twin router; a panic passes through as the identical value and emits no record. latency is ignored. Then 2-3 tasks send overlapping requests through the same wrapped handlers under the seeded scheduler (yields inside handlers and inside the log handler's Enabled, i.e. before slog copies the attributes): the records must be exactly one per request with that request's data. Non-trivial: the run covered at least 3 status classes and 2 handler kinds; distinct = hash of (configuration, request scripts).",
 		Run:  runC20, Quick: 64000, Thorough: 9600000,
 		Real: []string{"Logger middleware (logger.go)", "Context.ClientIP / RemoteIP", "recorder ResponseWriter", "ServeHTTP dispatch", "option processing (WithClientIPResolver)"},
 		Stub: []string{"slog sink: capturing handler", "client-IP resolvers: scripted", "net/http connection: simulated connection", "wall clock: real but unobserved (latency attribute excluded)"},
@@ -136,7 +136,7 @@ func runC20(src sim.Source, o Opts) *Result {
 		}
 		return remoteMarker
 	}
-	behaviours := []string{"status", "status", "status", "2xx-with-location", "info-only", "implicit", "nothing", "redirect-loc", "3xx-noloc", "failing-conn", "panic"}
+	behaviours := []string{"status", "status", "status", "setwriter", "2xx-with-location", "info-only", "implicit", "nothing", "redirect-loc", "3xx-noloc", "failing-conn", "panic"}
 	statuses := []int{200, 299, 300, 399, 400, 499, 500, 599, 301, 302, 303, 304, 305, 306, 307, 308, 310}
 	classes := map[slog.Level]bool{}
 	kinds := map[model.Kind]bool{}
@@ -171,6 +171,7 @@ func runC20(src sim.Source, o Opts) *Result {
 		scripts[len(scripts)-1] += " from " + remote
 		remoteWant := map[string]string{"192.0.2.1:1234": "192.0.2.1", "[2001:db8::1]:80": "2001:db8::1", "[fe80::1%eth0]:1234": "fe80::1%eth0", "@": "", "": ""}[remote]
 		run := func(ww *world.World, returned *bool) world.ServeObs {
+			conn := world.NewConn()
 			log := &world.ReqLog{Inner: func(c fox.Context, h *world.Hit) {
 				if ww == w {
 					remoteSeen = c.RemoteIP().String()
@@ -196,6 +197,15 @@ func runC20(src sim.Source, o Opts) *Result {
 					wr.WriteHeader(304)
 				case "failing-conn":
 					_, _ = wr.Write([]byte("body"))
+				case "setwriter":
+					// the handler replaces the writer (a buffering or rewriting writer would do that): what gets logged is
+					// the status recorded by the writer attached to the context when the handler returns
+					rw := world.NewRW(conn)
+					c.SetWriter(rw)
+					if withLoc {
+						rw.Header().Set("Location", "http://sim.invalid/loc")
+					}
+					rw.WriteHeader(status)
 				case "panic":
 					panic(pv)
 				}
@@ -205,7 +215,6 @@ func runC20(src sim.Source, o Opts) *Result {
 			}}
 			req := world.NewRequest(p.Method, p.Host, p.Path, "", "", log)
 			req.RemoteAddr = remote
-			conn := world.NewConn()
 			if beh == "failing-conn" {
 				conn.FailAfter = 1
 			}
